@@ -28,6 +28,7 @@ ALPHABET = [
     ["reply", 0, "garbage"],
     ["timeout", 0],
     ["set_keys", 0],
+    ["set_keys_bad", 0, "privlen"],
 ]
 
 WRAP_STARTS = {1: [0xFFFFFFFD, 0xFFFFFFFF, 0], 2: [0xFFFFFFFFFFFFFFFD, 0xFFFFFFFFFFFFFFFF, 0x00000000FFFFFFFE]}
@@ -43,7 +44,7 @@ def prefixes(depth):
                     ok = False
                     break
                 outstanding = False
-            elif a[0] != "set_keys":
+            elif a[0] not in ("set_keys", "set_keys_bad"):
                 outstanding = True
         if ok:
             yield [list(a) for a in h]
@@ -80,6 +81,18 @@ def gen_cases(tier):
                 pre = [["discover", 0, 1]] if disc else []
                 n = 20000 if thorough else 600
                 yield {"class": "long-run", "cfgs": [cfg.describe()], "history": pre + long_run(n), "force_salt": start}
+    # refused key installations of every kind between messages: the counter carries on as if nothing happened
+    for priv in (1, 2):
+        for auth in (1, 2):
+            cfg = Cfg("v3", auth=auth, priv=priv)
+            hows = ["privlen", "privempty", "authlen", "privalg"]
+            for k in (1, 2):
+                for combo in itertools.product(hows, repeat=k):
+                    h = [["get", 0, "sys"]]
+                    for how in combo:
+                        h += [["set_keys_bad", 0, how], ["get_many", 0, "pair"]]
+                    h += [["set_keys", 0], ["get", 0, "sys"], ["set_keys_bad", 0, combo[0]], ["refresh", 0], ["getnext", 0, "sys"]]
+                    yield {"class": "refused-set-keys", "cfgs": [cfg.describe()], "history": h, "force_salt": WRAP_STARTS[priv][0]}
     # two sessions with the same credentials keep separate counters but each is unique on its own
     a = Cfg("v3", auth=2, priv=2)
     yield {
